@@ -2,6 +2,7 @@
 //! sequential code of nuts-rs). One sub-command per property id.
 
 mod common;
+mod c01;
 mod c02;
 mod c05;
 mod c06;
@@ -43,6 +44,7 @@ fn main() {
     }
     // A panic that escapes a check is a machinery error, never a verdict.
     let res = std::panic::catch_unwind(|| match id.as_str() {
+        "C01" => c01::run(tier, replay),
         "C02" => c02::run(tier, replay),
         "C05" => c05::run_check(tier, replay),
         "C06" => c06::run(tier, replay),
